@@ -1,6 +1,7 @@
 package ledgersim
 
 import (
+	"sort"
 	"bytes"
 	"fmt"
 	"math/rand/v2"
@@ -312,3 +313,37 @@ func (s *Sim) fullCheck(where string) {
 }
 
 var _ = ledgercore.AccountData{}
+
+
+// kvCollisionBefore: the first round <= upTo at which the reference state held two kv pairs whose key||value
+// concatenations coincide (they share ONE leaf of the balances trie: trackerdb.KvHashBuilderV6 hashes key||value
+// without framing - open finding C15/kv-boundary-shift, C16/kv-leaf-collision). From then on the producer's trie
+// may have lost or double-counted a leaf, so label-level comparisons of that history are attributed to that finding.
+func (s *Sim) kvCollisionBefore(upTo basics.Round) (basics.Round, string) {
+	for s.kvScanned < s.latest {
+		s.kvScanned++
+		st := s.states[s.kvScanned]
+		if st == nil || s.kvCollAt != 0 {
+			continue
+		}
+		seen := map[string]string{}
+		keys := make([]string, 0, len(st.Kv))
+		for k := range st.Kv {
+			keys = append(keys, k)
+		}
+		sort.Strings(keys)
+		for _, k := range keys {
+			cat := k + string(st.Kv[k])
+			if other, dup := seen[cat]; dup {
+				s.kvCollAt = s.kvScanned
+				s.kvCollWhat = fmt.Sprintf("kv %q (value %d bytes) and kv %q (value %d bytes) have the same key||value concatenation", other, len(st.Kv[other]), k, len(st.Kv[k]))
+				break
+			}
+			seen[cat] = k
+		}
+	}
+	if s.kvCollAt != 0 && s.kvCollAt <= upTo {
+		return s.kvCollAt, s.kvCollWhat
+	}
+	return 0, ""
+}
